@@ -1015,6 +1015,13 @@ class World:
         have = [mm for mm in it['methods'] if (modpath, f'{self_ty}::{mm["name"]}') in self.vc.fns]
         if it['trait'] is not None and not have:
             self.uncontracted.append({'mod': modpath, 'name': it['name'], 'file': m['file'], 'kind': 'trait-impl'})
+            # closed world: R1 gives extracted types the meaning of their *derived* PartialEq / Clone, and the shim gives
+            # std traits their std meaning; a hand-written trait impl that is neither under contract nor listed `== skip`
+            # may change what `==`, `clone()`, `from()` .. mean for this type -> every function that mentions the type is undecided
+            tname = re.sub(r'<.*$', '', (it.get('self_ty') or '').strip()).split('::')[-1]
+            if tname:
+                self.degraded[f'{modpath}::{tname}'] = (f'unsupported: hand-written `impl {it["trait"]} for {it.get("self_ty")}` in {m["file"]} is not under contract '
+                                                        f'(the verified text assumes the derived / std meaning of that trait for the type)')
             return
         if not have:
             for mm in it['methods']:
